@@ -1038,10 +1038,13 @@ class TensorDict(TensorDictBase):
             names = None
             if self._has_names():
                 names = copy(self.names)
-                if not keepdim and isinstance(dim, tuple):
-                    names = [name for i, name in enumerate(names) if i not in dim]
-                else:
-                    names = [name for i, name in enumerate(names) if i != dim]
+                if not keepdim and batch_size is None:
+                    # the reduced dims disappear from the batch size, and their names with them
+                    if dim is None:
+                        names = None
+                    else:
+                        dims = dim if isinstance(dim, tuple) else (dim,)
+                        names = [name for i, name in enumerate(names) if i not in dims]
             if dim is not NO_DEFAULT:
                 kwargs["dim"] = dim
             if keepdim is not NO_DEFAULT:
@@ -1082,7 +1085,8 @@ class TensorDict(TensorDictBase):
                         ]
 
             else:
-                batch_size = [1 for b in self.batch_size]
+                # dim=None: every dim is reduced
+                batch_size = [1 for b in self.batch_size] if keepdim else []
 
             return self._fast_apply(
                 reduction,
